@@ -155,9 +155,8 @@ def lean_check(prop, tier, log):
 def build_stream(name, log):
     st = STREAMS[name]
     os.makedirs(BUILD, exist_ok=True)
-    out = os.path.join(BUILD, 'h_' + name)
-    if os.path.exists(out):
-        os.unlink(out)
+    final = os.path.join(BUILD, 'h_' + name)
+    out = final + f'.{os.getpid()}'      # built under a private name, then moved into place atomically
     shutil.copy(os.path.join(REPO, 'go.sum'), os.path.join(HARNESS, 'go.sum'))
     cmd = ['go', 'build']
     if REPO != '/repo' and not st.get('daemon'):
@@ -172,7 +171,7 @@ def build_stream(name, log):
         ov = {'Replace': {}}
         for dst, src in st['overlay'].items():
             ov['Replace'][os.path.join(REPO, dst)] = os.path.join(VERIF, 'overlay', src)
-        ovp = os.path.join(BUILD, f'overlay_{name}.json')
+        ovp = os.path.join(BUILD, f'overlay_{name}.{os.getpid()}.json')
         json.dump(ov, open(ovp, 'w'))
         cmd += ['-tags', 'verif', '-overlay', ovp]
     if st.get('race'):
@@ -186,10 +185,13 @@ def build_stream(name, log):
     else:
         cmd += ['-o', out, st['pkg']]
     p = subprocess.run(cmd, cwd=cwd, env=env, capture_output=True, text=True, timeout=900)
+    for tmp in glob.glob(os.path.join(BUILD, f'overlay_{name}.{os.getpid()}.json')):
+        os.unlink(tmp)
     if p.returncode != 0:
         log.append(f'build of stream {name} failed:\n' + p.stderr[-3000:])
         return None, p.stderr[-3000:]
-    return out, ''
+    os.replace(out, final)
+    return final, ''
 
 
 def split_cases(path):
@@ -543,7 +545,7 @@ def main(argv):
     os.makedirs(BUILD, exist_ok=True)
     workdir = os.path.join(BUILD, 'run_' + prop)
     shutil.rmtree(workdir, ignore_errors=True)
-    os.makedirs(workdir)
+    os.makedirs(workdir, exist_ok=True)
     known = load_known()
     violations = []      # (replay_path, concrete: bool)
     known_hits = {}
